@@ -14,6 +14,7 @@ import (
 
 	"github.com/coreruleset/crs-toolchain/v2/context"
 	"github.com/coreruleset/crs-toolchain/v2/regex"
+	"github.com/coreruleset/crs-toolchain/v2/utils"
 )
 
 var logger = log.With().Str("component", "update-copyright").Logger()
@@ -65,6 +66,7 @@ func processFile(filePath string, version string, year string) error {
 // in a more elegant way. Right now we just match strings.
 func updateRules(version string, year string, contents []byte) ([]byte, error) {
 	scanner := bufio.NewScanner(bytes.NewReader(contents))
+	scanner.Buffer(nil, utils.MaxLineLength)
 	scanner.Split(bufio.ScanLines)
 	output := new(bytes.Buffer)
 	writer := bufio.NewWriter(output)
